@@ -68,6 +68,18 @@ class C13(Prop):
             if rng.random() < 0.15:
                 c['naive'] = True         # start / end handed over without a time zone
             cases.append(c)
+        # the schedule a SESSION holds is the schedule of its (start, end) range, whatever its burn-in
+        for i in range(60 if tier == 'quick' else 600):
+            s, e = gen_range(rng, tier)
+            if e < s:
+                s, e = e, s
+            e = (e // DAY) * DAY + rng.choice([86340, 86340, 0, 52200])
+            if e < s:
+                e = (s // DAY) * DAY + 86340
+            which = rng.choice(['weekly', 'daily', 'end_of_month', 'buy_and_hold'])
+            burn = rng.choice([None, s + rng.randint(0, max(1, e - s)), (s // DAY + rng.randint(0, 9)) * DAY + rng.choice([52200, 75600, 0])])
+            cases.append({'kind': 'sess_sched', 'which': which, 'start': s, 'stop': e, 'pm': False, 'weekday': rng.choice(WD),
+                          'burn': burn, 'stream': 'session-wiring'})
         if tier == 'thorough':
             for a in range(0, 70, 2):
                 for b in range(a, 70, 3):
